@@ -178,6 +178,7 @@ pub fn cmd_worker(args: &[String]) -> i32 {
                 if known_match(&known, v2.prop.name(), v2.rule, &v2.detail).is_some() {
                     let _ = writeln!(out, "KNOWN\t{}\t{}\t{}\t{}", v2.prop.name(), v2.rule, seed, one_line(&v2.detail));
                 } else {
+                    let logged = check_trace(&sh.trace, prop.bit(), true);
                     let rp = Replay {
                         prop: v2.prop,
                         rule: v2.rule.to_string(),
@@ -185,6 +186,7 @@ pub fn cmd_worker(args: &[String]) -> i32 {
                         detail: v2.detail.clone(),
                         original_steps: tr.steps.len(),
                         trace: sh.trace.clone(),
+                        log: logged.out.log.iter().map(|l| l.chars().take(300).collect()).collect(),
                     };
                     let dir = root().join("replays");
                     let _ = std::fs::create_dir_all(&dir);
@@ -222,6 +224,7 @@ pub fn cmd_worker(args: &[String]) -> i32 {
                     detail: v.detail.clone(),
                     original_steps: tr.steps.len(),
                     trace: tr.clone(),
+                    log: Vec::new(),
                 };
                 let dir = root().join("replays");
                 let _ = std::fs::create_dir_all(&dir);
@@ -737,6 +740,7 @@ fn crash_probe(me: &Path, prop: Prop, seed: u64) -> Option<(String, String, usiz
         detail: detail.clone(),
         original_steps: step + 1,
         trace: tr.clone(),
+        log: Vec::new(),
     };
     let dir = root().join("replays");
     let _ = std::fs::create_dir_all(&dir);
